@@ -264,6 +264,20 @@ PROPS = {
              "env": {"MALLOC_ARENA_MAX": 1}, "min_nontrivial": {Q: 250, T: 3000}, "timeout": {Q: 600, T: 3000}},
         ],
     },
+
+    "C17": {
+        "level": "fault_enumeration",
+        "technique": "runtime monitor under virtual time: deterministic scheduler over instrumented storage + locker (exhaustive DFS for 2-3 duplicates), single storage/lock faults enumerated per call index x schedule, porcupine linearizability of the execute-or-replay register; mutual-exclusion monitor on the real MemoryLock; race-detector stress",
+        "level_text": "2-4 duplicate, other-key, keyless and safe-method requests are interleaved at every boundary of the middleware (fast-path Get, Lock, re-check Get, handler entry/exit, Set, Unlock): on every schedule at most one successful handler completion per key, every answered duplicate byte-equal (status, body, kept headers as multisets) to that execution, unaffected bystanders, no deadlock or panic, linearizable register. Every single fault (Get#n, Lock#n, Set#n, Unlock#n, unlock-error#n) is injected on each call index over all schedules of 2 workers: a failed Lock or lookup yields an error response and no handler entry. Lifetime expiry on the fake clock; the real MemoryLock under the scheduler (overlap counter <= 1 per key); 64 goroutines x 8 keys under the race detector.",
+        "level_note": TRUSTED + "; Go runtime faketime clock; porcupine. Framing headers (Transfer-Encoding, Content-Length, Connection, Keep-Alive, Date) are excluded from the header comparison; failed handler executions are unconstrained (the statement speaks of successful completions).",
+        "rule": "case = scenario x schedule (x fault plan); non-trivial = schedule in which two duplicates are both past the fast-path miss before one stores; distinct by schedule key; fault plans = (scenario, call kind, call index)",
+        "subs": [
+            {"engine": "idem", "mode": "vt", "shards": {Q: 16, T: 16}, "min_nontrivial": {Q: 10000, T: 500000},
+             "require_stats": {"fault_plans_fired.get": 1, "fault_plans_fired.lock": 1, "fault_plans_fired.set": 1, "overlap_schedules": 1000},
+             "timeout": {Q: 600, T: 3400}},
+            {"engine": "idem.race", "mode": "race", "shards": {Q: 2, T: 8}, "min_nontrivial": {Q: 2, T: 2}, "timeout": {Q: 600, T: 3000}},
+        ],
+    },
 }
 
 HOOK_COMMITS = ["d290bd8", "d29431c"]
